@@ -1,6 +1,7 @@
 //! Anchor of the model to bytes that desert-rust did not produce: the Scala golden file must
 //! decode (by the model alone) to the value spelled out in the repository's golden test, and the
 //! model encoder, told the forms met while decoding, must reproduce the file byte for byte.
+use refmodel::golden::{expected, test_model1};
 use refmodel::*;
 use std::sync::Arc;
 
@@ -8,162 +9,9 @@ fn fld(name: &str, ty: Ty) -> FieldDescr {
     FieldDescr { name: name.into(), is_option: matches!(ty, Ty::Opt(_)), ty, transient: None, default: None }
 }
 
-fn list_element1() -> Ty {
-    Ty::Record(Arc::new(RecordDescr { name: "ListElement1".into(), steps: vec![], fields: vec![fld("id", Ty::Str)] }))
-}
-
-fn list_element2() -> Ty {
-    let first = VariantDescr {
-        name: "First".into(),
-        transient: false,
-        shape: 2,
-        record: RecordDescr { name: "First".into(), steps: vec![], fields: vec![fld("elem", list_element1())] },
-    };
-    let mut cached = fld("_cached", Ty::Opt(Box::new(Ty::Str)));
-    cached.transient = Some(Val::none());
-    let second = VariantDescr {
-        name: "Second".into(),
-        transient: false,
-        shape: 2,
-        record: RecordDescr {
-            name: "Second".into(),
-            steps: vec![Step::MadeTransient("cached".into())],
-            fields: vec![fld("uuid", Ty::Uuid), fld("desc", Ty::Opt(Box::new(Ty::Str))), cached],
-        },
-    };
-    let third = VariantDescr {
-        name: "Third".into(),
-        transient: true,
-        shape: 2,
-        record: RecordDescr { name: "Third".into(), steps: vec![], fields: vec![] },
-    };
-    Ty::Enum(Arc::new(EnumDescr { name: "ListElement2".into(), sorted: true, variants: vec![first, second, third] }))
-}
-
-fn ste() -> Ty {
-    let os = Ty::Opt(Box::new(Ty::Str));
-    Ty::Tuple(vec![os.clone(), os.clone(), os, Ty::VarU32])
-}
-
-fn throwable() -> Ty {
-    Ty::Record(Arc::new(RecordDescr {
-        name: "Throwable".into(),
-        steps: vec![],
-        fields: vec![
-            fld("class_name", Ty::Str),
-            fld("message", Ty::Str),
-            fld("stack_trace", Ty::Seq(SeqKind::Vec, Box::new(ste()))),
-            fld("cause", Ty::Opt(Box::new(Ty::Named("Throwable".into())))),
-        ],
-    }))
-}
-
-fn test_model1() -> Ty {
-    let mut string = fld("string", Ty::Str);
-    string.default = Some(Val::s("default string"));
-    let mut set = fld("set", Ty::Seq(SeqKind::HashSet, Box::new(Ty::Str)));
-    set.default = Some(Val::Seq(vec![]));
-    Ty::Record(Arc::new(RecordDescr {
-        name: "TestModel1".into(),
-        steps: vec![Step::MadeOptional("option".into()), Step::Added("string".into()), Step::Added("set".into())],
-        fields: vec![
-            fld("byte", Ty::I8),
-            fld("short", Ty::I16),
-            fld("int", Ty::I32),
-            fld("long", Ty::I64),
-            fld("float", Ty::F32),
-            fld("double", Ty::F64),
-            fld("boolean", Ty::Bool),
-            fld("unit", Ty::Unit),
-            string,
-            fld("uuid", Ty::Uuid),
-            fld("exception", throwable()),
-            fld("list", Ty::Seq(SeqKind::Vec, Box::new(list_element1()))),
-            fld("array", Ty::Seq(SeqKind::Vec, Box::new(Ty::I64))),
-            fld("vector", Ty::Seq(SeqKind::Vec, Box::new(list_element1()))),
-            set,
-            fld("either", Ty::Res(Box::new(Ty::Bool), Box::new(Ty::Str))),
-            fld("tried", Ty::Res(Box::new(list_element2()), Box::new(throwable()))),
-            fld("option", Ty::Opt(Box::new(Ty::Map(MapKind::Hash, Box::new(Ty::Str), Box::new(list_element2()))))),
-        ],
-    }))
-}
-
-fn uuid(s: &str) -> Val {
-    let hex: String = s.chars().filter(|c| *c != '-').collect();
-    Val::Bytes((0..16).map(|i| u8::from_str_radix(&hex[2 * i..2 * i + 2], 16).unwrap()).collect())
-}
-
-/// the stack-trace elements exactly as the repository's golden test spells them
-fn stack_traces_from_repo_test() -> Vec<Val> {
-    let src = std::fs::read_to_string("/repo/desert_macro/tests/golden.rs").unwrap();
-    let body = &src[src.find("let expected = TestModel1").unwrap()..];
-    let mut out = Vec::new();
-    let mut rest = body;
-    fn quoted(s: &str, key: &str) -> (String, usize) {
-        let i = s.find(key).unwrap();
-        let a = i + s[i..].find('"').unwrap() + 1;
-        let b = a + s[a..].find('"').unwrap();
-        (s[a..b].to_string(), b)
-    }
-    while let Some(i) = rest.find("StackTraceElement {") {
-        rest = &rest[i..];
-        let (c, _) = quoted(rest, "class_name:");
-        let (m, _) = quoted(rest, "method_name:");
-        let (f, e) = quoted(rest, "file_name:");
-        let l = rest[e..].find("line_number:").unwrap() + e + "line_number:".len();
-        let le = l + rest[l..].find(',').unwrap();
-        let line: u32 = rest[l..le].trim().parse().unwrap();
-        out.push(Val::Tuple(vec![Val::some(Val::s(&c)), Val::some(Val::s(&m)), Val::some(Val::s(&f)), Val::U(line as u128)]));
-        rest = &rest[le..];
-    }
-    out
-}
-
-fn le1(id: &str) -> Val {
-    Val::Rec(vec![Val::s(id)])
-}
-
-fn expected() -> Val {
-    let st = stack_traces_from_repo_test();
-    assert_eq!(st.len(), 32);
-    let cause = Val::Rec(vec![
-        Val::s("java.lang.IllegalArgumentException"),
-        Val::s("param should not be negative"),
-        Val::Seq(st[16..].to_vec()),
-        Val::none(),
-    ]);
-    let exception = Val::Rec(vec![
-        Val::s("java.lang.RuntimeException"),
-        Val::s("Example exception"),
-        Val::Seq(st[..16].to_vec()),
-        Val::some(cause),
-    ]);
-    let u = uuid("0ca26648-edee-4a2d-bd88-eebf92d19c30");
-    Val::Rec(vec![
-        Val::I(-10),
-        Val::I(10000),
-        Val::I(-2000000000),
-        Val::I(100000000001),
-        Val::F32(3.14f32.to_bits()),
-        Val::F64(0.1234e-10f64.to_bits()),
-        Val::Bool(false),
-        Val::Unit,
-        Val::s("Example data set"),
-        uuid("d90c4285-544d-424d-885c-3940fe00883d"),
-        exception,
-        Val::Seq(vec![le1("a"), le1("aa"), le1("aaa")]),
-        Val::Seq((1..=30000).map(Val::I).collect()),
-        Val::Seq((1..=100).map(|i| le1(&i.to_string())).collect()),
-        Val::Seq(vec![Val::s("hello"), Val::s("world")]),
-        Val::Res(Ok(Box::new(Val::Bool(true)))),
-        Val::Res(Ok(Box::new(Val::Enum(0, vec![le1("")])))),
-        Val::some(Val::Map(vec![
-            (Val::s("first"), Val::Enum(0, vec![le1("1st")])),
-            (Val::s("second"), Val::Enum(1, vec![u.clone(), Val::none(), Val::none()])),
-            (Val::s("third"), Val::Enum(1, vec![u, Val::some(Val::s("some description")), Val::none()])),
-        ])),
-    ])
+#[test]
+fn anchor_helper_agrees() {
+    assert_eq!(refmodel::golden::check_anchor(), Ok(242540));
 }
 
 #[test]
